@@ -33,8 +33,8 @@ map (they collide with generated ones) -/
 def nsKFree (M : NsMap) : Bool :=
   M.all fun e => match e.1 with
     | some p =>
-      -- p = "ns" ++ digits with value ≥ |M| is forbidden; we forbid every "ns"+digits prefix
-      !(nsLit.isPrefixOf p && (p.drop 2).all (fun c => 48 ≤ c.toNat && c.toNat ≤ 57))
+      -- p = "ns" ++ digits with value ≥ |M| would collide; every "ns" + (one or more digits) prefix is excluded
+      !(nsLit.isPrefixOf p && !(p.drop 2).isEmpty && (p.drop 2).all (fun c => 48 ≤ c.toNat && c.toNat ≤ 57))
     | none => true
 
 /-- a standard prefix may only be bound to its standard namespace -/
